@@ -141,8 +141,14 @@ type simDriver struct{ s *SimSQL }
 func (d *simDriver) Open(name string) (driver.Conn, error) { return &simConn{s: d.s}, nil }
 
 type simConn struct {
-	s  *SimSQL
-	tx map[string]*sqlTable // private copy while in a transaction
+	s     *SimSQL
+	tx    map[string]*sqlTable // private copy while in a transaction (read-your-writes)
+	txOps []txOp               // the transaction's writes, re-applied to the shared tables at COMMIT
+}
+
+type txOp struct {
+	q    string
+	args []driver.Value
 }
 
 func (c *simConn) Prepare(q string) (driver.Stmt, error) { return &simStmt{c: c, q: q}, nil }
@@ -171,15 +177,18 @@ func (t *simTx) Commit() error {
 	c := t.c
 	o := c.s.gate(context.Background(), "commit")
 	if o.Fault == "store_err_before" {
-		c.tx = nil
+		c.tx, c.txOps = nil, nil
 		return ErrSimSQL
 	}
-	c.s.mu.Lock()
-	if c.tx != nil {
-		c.s.Tables = c.tx
+	// row-level effect: the writes of the transaction are applied to the current tables, so writes other
+	// connections made to other rows meanwhile survive (as under InnoDB)
+	ops := c.txOps
+	c.tx, c.txOps = nil, nil
+	for _, op := range ops {
+		if _, err := c.execApply(op.q, op.args); err != nil {
+			return err
+		}
 	}
-	c.tx = nil
-	c.s.mu.Unlock()
 	if o.Fault == "store_err_after" {
 		return ErrSimSQL
 	}
@@ -187,7 +196,7 @@ func (t *simTx) Commit() error {
 }
 
 func (t *simTx) Rollback() error {
-	t.c.tx = nil
+	t.c.tx, t.c.txOps = nil, nil
 	return nil
 }
 
@@ -287,7 +296,11 @@ func (c *simConn) exec(ctx context.Context, q string, args []driver.Value) (driv
 		return simResult{0}, nil
 	}
 	kind := "exec"
-	o := c.s.gate(ctx, kind+":"+firstWords(q, 3))
+	gk := kind + ":" + firstWords(q, 3)
+	if len(args) > 0 {
+		gk += ":" + fmt.Sprint(normVal(args[0]))
+	}
+	o := c.s.gate(ctx, gk)
 	if o.CtxErr != nil {
 		return nil, o.CtxErr
 	}
@@ -297,6 +310,9 @@ func (c *simConn) exec(ctx context.Context, q string, args []driver.Value) (driv
 	res, err := c.execApply(q, args)
 	if err != nil {
 		return nil, err
+	}
+	if c.tx != nil {
+		c.txOps = append(c.txOps, txOp{q, args})
 	}
 	if o.Fault == "store_err_after" {
 		return nil, ErrSimSQL
